@@ -396,15 +396,34 @@ theorem invA_remove (s : St) (h : InvA s) (n : Nat) (u : Sub) (hu : u ∈ s.subs
   · exact h.logStarted
   · exact h.dAbsent
 
+/-- the invariant does not look at the bookkeeping ghosts -/
+theorem InvA.repack {s s' : St} (h : InvA s) (h1 : s'.subs = s.subs) (h2 : s'.log = s.log) (h3 : s'.d = s.d)
+    (h4 : s'.removed = s.removed) (h5 : s'.nextSid = s.nextSid) (h6 : s'.clock = s.clock) (h7 : s'.nd = s.nd) :
+    InvA s' := by
+  constructor
+  · rw [h1, h5]; exact h.liveLt
+  · rw [h2, h5]; exact h.logLt
+  · rw [h1]; exact h.liveUniq
+  · rw [h1, h2]; exact h.onceGone
+  · rw [h2]; exact h.onceNodup
+  · rw [h3, h5]; exact h.restLt
+  · rw [h3, h6]; exact h.startLe
+  · rw [h4, h5]; exact h.remLt
+  · rw [h1, h4]; exact h.remGone
+  · rw [h3, h4]; exact h.restRem
+  · rw [h2, h3, h4]; exact h.logRem
+  · rw [h2, h3]; exact h.logStarted
+  · rw [h3, h7]; exact h.dAbsent
+
 theorem invA_apply (sc : Nat → Script) (s : St) (h : InvA s) (e : Ev) : InvA (apply sc s e) := by
   cases e with
-  | subscribe n cb => exact invA_subscribe s h n cb false
-  | subscribeOnce n cb => exact invA_subscribe s h n cb true
+  | subscribe n cb => exact (invA_subscribe s h n cb false).repack rfl rfl rfl rfl rfl rfl rfl
+  | subscribeOnce n cb => exact (invA_subscribe s h n cb true).repack rfl rfl rfl rfl rfl rfl rfl
   | unsubCb n cb =>
     simp only [apply]; split
     · rename_i u hu
-      exact invA_remove s h n u (List.mem_of_find?_eq_some hu)
-    · exact h
+      exact (invA_remove s h n u (List.mem_of_find?_eq_some hu)).repack rfl rfl rfl rfl rfl rfl rfl
+    · exact h.repack rfl rfl rfl rfl rfl rfl rfl
   | unsubOnce n sid =>
     simp only [apply]; split
     · rename_i hc
